@@ -230,7 +230,7 @@ impl Check for C15 {
         "fault_enumeration"
     }
     fn work(&self, tier: Tier) -> Vec<WorkItem> {
-        vec![WorkItem { mode: "job", count: std::env::var("VERIF_N").ok().and_then(|s| s.parse().ok()).unwrap_or(tier.pick(8, 96)) }]
+        vec![WorkItem { mode: "job", count: std::env::var("VERIF_N").ok().and_then(|s| s.parse().ok()).unwrap_or(tier.pick(12, 120)) }]
     }
     fn evaluations_counter(&self) -> &'static str {
         "fault_runs"
@@ -330,8 +330,8 @@ impl Check for C15 {
         }
     }
     fn finalize(&self, m: &mut Merged, tier: Tier) {
-        m.floor("fault runs", m.c("fault_runs"), tier.pick(800, 15_000));
-        m.floor("jobs", m.c("jobs"), tier.pick(6, 70));
+        m.floor("fault runs", m.c("fault_runs"), tier.pick(300, 8_000));
+        m.floor("jobs", m.c("jobs"), tier.pick(6, 60));
         m.extra.insert("exhaustive_over_positions_and_kinds_per_job".into(), json!(true));
     }
 }
